@@ -675,7 +675,7 @@ class LogixController(Module):
         return build_mr_reply(req.service, ST_OK, struct.pack("<H", len(nm)) + nm)
 
     def now_wallclock(self):
-        return self.wallclock_us + (self.sim.now_us - self.wallclock_set_at)
+        return (self.wallclock_us + (self.sim.now_us - self.wallclock_set_at)) & (2**64 - 1)
 
     def wall_clock(self, req, ctx):
         d = req.data
